@@ -204,7 +204,8 @@ def run_check(prop, tier, seed, timeout, verbose):
             k = match_known(known, prop, unit, f)
             if k:
                 known_lines.append(f"KNOWN-FINDING: property={prop} {k['what']} [function={unit} class={f.get('klass')}]")
-            elif nat.get("proved", True) and unit in [r.key for r in unit_results]:
+            elif nat.get("proved", True) and any(r.key == unit and not r.error for r in unit_results) \
+                    and not any(ob.unit == unit and ob.status != "unsat" for ob in all_obs):
                 errors.append(f"engine/native disagreement on {unit}: all obligations discharged but native input fails: {json.dumps(f)[:300]}")
             else:
                 path = write_replay(replay_dir, prop, unit, [], f, index)
